@@ -5,7 +5,7 @@ ENTRY = {
     "driver": "_c12",
     "builds": [("harness_c12", "verif,c12")],
     "models": ["Proto/Model.v (hand-written model of the package's encoder/decoder, shared with C03/C16/C07)",
-               "Proto/WireSpec.v (transcription of the protobuf encoding specification: records, merge semantics, dialects, legal encodings; Go type -> message descriptor)",
+               "Proto/WireSpec.v (transcription of the protobuf encoding specification: records, merge semantics, dialects, canonical encoder, the set of legal encodings; Go type -> message descriptor; message -> Go value)",
                "Generated/ProtoGen.v (translated wire primitives)"],
     "rule": "hand-picked shapes + seeded random struct types (as C03, without RawMessage) x zero value and boundary-biased values (float32 signalling NaNs quieted: the oracle's API carries float32 as float64). "
             "Oracle: google.golang.org/protobuf v1.26.0 (dynamicpb over a proto2 descriptor built at run time from the Go struct type: pointers = optional with presence, slices = repeated unpacked, maps = map entries, tags zigzag/fixed = sint/fixed). "
@@ -13,18 +13,29 @@ ENTRY = {
             "w.dec: proto.Unmarshal vs the reference on the reference's own encodings (with and without explicitly written zero values), on the package's encoding, and on legal re-encodings built from them at the record level "
             "(stable shuffle of fields at every nesting level, varints of tags/lengths/values padded up to 10 bytes, singular embedded messages split into 2-3 occurrences incl. inside repeated elements and map values, "
             "singular scalars preceded by 1-2 occurrences with arbitrary values, unknown fields of every wire type); the harness first checks that the reference reads each re-encoding as the original value (w.bug otherwise); "
-            "model: Model.Unmarshal and spec_decode std, and inside the driver spec_decode pkgd accepted => same value as Model.Unmarshal (DIALECT-MISMATCH marker); "
+            "model: Model.Unmarshal and spec_decode std, and inside the driver the claim of theorem (b1) on this input: spec_decode pkgd accepted => same value as Model.Unmarshal (DIALECT-MISMATCH marker); "
             "o.dec: mutated encodings, reference vs spec_decode std only (ties the transcription to the reference; inputs with group wire types are skipped, reference panics are recorded as o.refpanic without verdict); "
-            "w.type: proto.TypeOf vs the expected .proto shape. Case-name suffixes name input classes decided from the input alone: .boolpad (a bool written on more than one byte), .zzrep (repeated field tagged zigzag), "
-            ".emap (map without entries / entry record with empty payload), .f17 (pointer to a message with empty encoding), .fixtag (uint32/uint64 tagged fixed32/fixed64, TypeOf only)",
+            "w.type: proto.TypeOf vs the expected .proto shape. Case-name suffixes name input classes decided from the input alone (known findings): .zzrep (repeated field tagged zigzag/fixed32/fixed64), "
+            ".emap (map without entries / entry record with empty payload), .f17 (pointer to a message with empty encoding; entry without value in a map of pointers), .zzstruct (zigzag tag on a struct-typed field)",
     "nontrivial": nontrivial_default,
     "trusted_base": COMMON_TB + [
-        "Proto/Model.v: hand-written model of the reflection-driven codecs, tied to the code by correspondence (w.dec: impl vs Model.Unmarshal on every reference encoding and re-encoding; C03/C16/C07 for the rest)",
-        "Proto/WireSpec.v: transcription from memory of the protobuf encoding specification, tied to the reference implementation google.golang.org/protobuf v1.26.0 by correspondence on every w.dec and o.dec input (valid, re-encoded and mutated)",
+        "Proto/Model.v: hand-written model of the reflection-driven codecs, tied to the code by correspondence (w.dec: impl vs Model.Unmarshal on every reference encoding and re-encoding; w.std; C03/C16/C07 for the rest)",
+        "Proto/WireSpec.v: transcription from memory of the protobuf encoding specification, tied to the reference implementation google.golang.org/protobuf v1.26.0 by correspondence on every w.dec and o.dec input (valid, re-encoded and mutated); groups are not transcribed",
         "the oracle: google.golang.org/protobuf v1.26.0 (proto, dynamicpb, protodesc, protowire) and the harness's construction of the descriptor from the Go type",
         "Go memory layout is abstracted to values (as C03)",
     ],
     "assumptions": ["universe: finite struct types with a .proto equivalent (no RawMessage; [N]byte is read as bytes of length N); field numbers unique, 1..2047 in the generated types; groups and packed repeated scalars excluded",
-                    "nil-vs-empty of byte slices, slices and maps is not observable on the wire; map entry order is canonicalised by sorting"],
+                    "nil-vs-empty of byte slices, slices and maps is not observable on the wire; map entry order is canonicalised by sorting",
+                    "theorem (b) leaves byte arrays, RawMessage and maps with pointer-typed values to the correspondence check (predicate plain)"],
 }
-CLAIM = None
+CLAIM = {
+    "text": "Theorems (Properties/C12.v), over an independent Coq transcription of the protobuf encoding specification (Proto/WireSpec.v: records, merge semantics, canonical encoder, and the inductively described set of ALL legal encodings of a message: "
+            "occurrences of different fields interleaved in any order, every varint on any legal number of bytes, arbitrary earlier occurrences of singular scalars, embedded messages split into several occurrences, unknown fields): "
+            "(a) for every struct type of the universe and every representable value the specification's decoder reads proto.Marshal's bytes as a message denoting the same Go value (nil-vs-empty aside); "
+            "(b1) on EVERY byte string accepted by the specification's decoder in the package dialect (32-bit range errors, wire-type mismatch is an error, empty map-entry record ignored) Unmarshal returns the value of the decoded message - the package decoder is the standard decoder up to three named switches; "
+            "(b) hence Unmarshal decodes every legal encoding of every message of the descriptor to the value of that message, and the specification reads the same bytes as that message; the specification decodes its own canonical encoder. "
+            "Set aside by explicit boolean predicates, each shown necessary by a machine-checked counterexample replayed on the real code: repeated fields tagged zigzag/fixed (F33), maps without entries (F34), pointers to empty messages (F17), a zigzag tag on a struct-typed field. "
+            "Found and repaired through this check: decodeBool read one byte of a padded varint; TypeOf ignored fixed32/fixed64 tags.",
+    "note": "Trusted: Coq kernel; the hand-written package model (tied to the code by correspondence on ~17k reference encodings and re-encodings per run); the transcription of the specification (tied to google.golang.org/protobuf v1.26.0 on the same inputs plus ~6k mutated ones); extraction+driver; harness and descriptor construction. "
+            "Theorem (b) excludes byte arrays, RawMessage and maps with pointer values (correspondence only); packed repeated scalars and groups are excluded by the property / not transcribed.",
+}
